@@ -21,6 +21,7 @@ def skip_region(syn, feats, skipped):
     elif syn == "oer" and "wide_int_fixed_oer" in feats: fid = "F36"
     elif syn == "uper" and "named_plain_numeric" in feats: fid = "F46"
     elif syn == "uper" and "choice_alias" in feats: fid = "F38"
+    elif syn == "uper" and "enum_alias" in feats: fid = "F123"
     elif syn == "xer" and "REAL" in feats: fid = "F40"
     if fid: skipped[fid] += 1
     return fid is not None
